@@ -2,10 +2,10 @@ package main
 
 import (
 	"bufio"
-	"os"
-	"os/exec"
 	"fmt"
 	"math/rand"
+	"os"
+	"os/exec"
 	"sort"
 	"strconv"
 	"strings"
@@ -20,9 +20,11 @@ import (
 //
 // One case = one query A (cfg sql / q …) of some kind (projection, analytic in SELECT / WHERE, function group
 // key, plain window, JOIN, JOIN + window) and a second query B (cfg sql2 / q2 …).  Ops:
-//   emitsync <row>                 EmitSync on A's instance (direct kinds)          obs: after <row>
-//   emitall <L rows>               Emit every row, wait for quiescence              obs: after <L rows>, sinkrows <t|f>
-//   paired <L rowsA> <L rowsB> <bits> <cold|warm>   A and B alone (cold caches) vs interleaved by <bits>   obs: pairedA <t|f>, pairedB <t|f>
+//
+//	emitsync <row>                 EmitSync on A's instance (direct kinds)          obs: after <row>
+//	emitall <L rows>               Emit every row, wait for quiescence              obs: after <L rows>, sinkrows <t|f>
+//	paired <L rowsA> <L rowsB> <bits> <cold|warm>   A and B alone (cold caches) vs interleaved by <bits>   obs: pairedA <t|f>, pairedB <t|f>
+//
 // `after` is the caller's map re-read after the call (deep, canonical).  Quiescence: direct kinds wait for as
 // many sink deliveries as a twin instance returned non-nil EmitSync results for copies of the same rows;
 // window kinds append sentinel rows of their own group and wait for the sentinel's batch (single FIFO
@@ -289,7 +291,7 @@ func (c20) Gen(rng *rand.Rand, tier string, idx int) Case {
 	op = append(op, c20RowsTok(rb)...)
 	temp := []string{"cold", "warm"}[rng.Intn(2)] // paired run on empty caches, or on the caches the solo runs left behind
 	if skew {
-		temp = "fresh" // a process of its own
+		temp = "fresh"        // a process of its own
 		if rng.Intn(2) == 0 { // instance A (string-typed) sees all its rows first
 			bits = []byte(strings.Repeat("a", len(ra)) + strings.Repeat("b", len(rb)))
 		}
